@@ -574,6 +574,31 @@ fn run_sandboxed(def: &CheckDef, space: &Space, pass_args: &[String]) -> Local {
                         ChildEnd::Done(l) => total.lock().unwrap().merge(l),
                         ChildEnd::Died { idx, kind, detail } => {
                             let mut l = Local::default();
+                            // a wall-clock hang verdict is confirmed by running the case once more, alone, in a
+                            // fresh worker: on a loaded machine a global stall can exceed the budget of a fast case
+                            if kind == "hang" {
+                                let mut c2 = spawn_child(pass_args, &space.name);
+                                if let ChildEnd::Done(l2) = run_range(&mut c2, idx, idx + 1, false) {
+                                    total.lock().unwrap().merge(l2);
+                                    let mut st = Local::default();
+                                    st.count("stalls_not_reproduced", 1);
+                                    total.lock().unwrap().merge(st);
+                                    let mut q = queue.lock().unwrap();
+                                    if idx + 1 < hi {
+                                        q.push_front((idx + 1, hi));
+                                    }
+                                    if idx > lo {
+                                        q.push_front((lo, idx));
+                                    }
+                                    drop(q);
+                                    drop(c2.stdin);
+                                    let _ = c2.proc.wait();
+                                    child = spawn_child(pass_args, &space.name);
+                                    continue;
+                                }
+                                let _ = c2.proc.kill();
+                                let _ = c2.proc.wait();
+                            }
                             // what the dead worker had accumulated for [lo, idx) is lost: re-run that part
                             // (it completes: those cases already passed once and cases are deterministic)
                             l.evals = 1;
